@@ -31,6 +31,7 @@
 #include <test/util/mining.h>
 #include <test/util/script.h>
 #include <test/util/txmempool.h>
+#include <univalue.h>
 #include <util/fs.h>
 #include <util/time.h>
 
